@@ -30,7 +30,7 @@ static void *wd_fn(void *a) {
 typedef struct { unsigned prod, seq; } Item;
 static PMutex *mu; static PCondVariable *cv_ne, *cv_nf;
 static Item ring[8]; static int cap, head, cnt; static long long consumed_total, target; static int inside;      /* all protected by mu */
-static int use_bcast, sig_outside; static int P_, C_; static long long N_;
+static int use_bcast, sig_outside, prod_try; static int P_, C_; static long long N_; static long long st_try_runs, st_try_acquisitions;
 static unsigned *clog[MAXT]; static long long clog_n[MAXT];
 static long long st_waits, st_items, st_runs, st_spurious_returns;
 static long long in_bad[MAXT * 2];
@@ -41,7 +41,9 @@ static void leave(void) { inside = 0; }
 static void *producer(void *a) {
 	int id = (int)(intptr_t)a; long long s;
 	for (s = 0; s < N_; s++) {
-		p_mutex_lock(mu); enter(id);
+		if (prod_try) { while (!p_mutex_trylock(mu)) sched_yield(); __atomic_add_fetch(&st_try_acquisitions, 1, __ATOMIC_RELAXED); }      /* legal way to take the mutex: a waiter has released it, so this must succeed eventually */
+		else p_mutex_lock(mu);
+		enter(id);
 		while (cnt == cap) { leave(); __atomic_add_fetch(&st_waits, 1, __ATOMIC_RELAXED); if (!p_cond_variable_wait(cv_nf, mu)) { viol("wait-failed", "p_cond_variable_wait returned FALSE"); } enter(id); }
 		ring[(head + cnt) % cap].prod = (unsigned)id; ring[(head + cnt) % cap].seq = (unsigned)s; cnt++;
 		leave();
@@ -67,9 +69,9 @@ static void *consumer(void *a) {
 	}
 	return NULL;
 }
-static void run_buffer(int P, int C, long long N, int capacity, int bcast, int outside) {
+static void run_buffer(int P, int C, long long N, int capacity, int bcast, int outside, int ptry) {
 	pthread_t th[MAXT * 2]; int i, n = 0; unsigned char *seen; long long k; long long bad = 0;
-	scen = bcast ? (outside ? "buffer-one-condvar-broadcast-outside-mutex" : "buffer-one-condvar-broadcast") : (outside ? "buffer-two-condvars-signal-outside-mutex" : "buffer-two-condvars-signal"); sig_outside = outside;
+	scen = bcast ? (outside ? "buffer-one-condvar-broadcast-outside-mutex" : "buffer-one-condvar-broadcast") : (outside ? "buffer-two-condvars-signal-outside-mutex" : "buffer-two-condvars-signal"); sig_outside = outside; prod_try = ptry; if (ptry) { st_try_runs++; scen = bcast ? "buffer-broadcast-producers-acquire-by-trylock" : "buffer-signal-producers-acquire-by-trylock"; }
 	P_ = P; C_ = C; N_ = N; cap = capacity; head = cnt = 0; consumed_total = 0; target = (long long)P * N; use_bcast = bcast; inside = 0;
 	mu = p_mutex_new(); cv_ne = p_cond_variable_new(); cv_nf = bcast ? cv_ne : p_cond_variable_new();
 	if (!mu || !cv_ne || !cv_nf) VH_DIE("new");
@@ -97,7 +99,7 @@ static void run_buffer(int P, int C, long long N, int capacity, int bcast, int o
 static int registered, go, tokens; static volatile int arrived, release_flag, awake_flag, probe_result;
 static void *waiter(void *a) {
 	(void)a;
-	p_mutex_lock(mu); registered++;
+	p_mutex_lock(mu); __atomic_add_fetch(&registered, 1, __ATOMIC_SEQ_CST);
 	while (!go && tokens == 0) p_cond_variable_wait(cv_ne, mu);
 	if (tokens > 0) tokens--;
 	__atomic_add_fetch(&arrived, 1, __ATOMIC_SEQ_CST); __atomic_add_fetch(&progress, 1, __ATOMIC_RELAXED);
@@ -106,14 +108,14 @@ static void *waiter(void *a) {
 }
 static void *waiter_hold(void *a) {     /* after waking stays inside until the prober has tried the mutex */
 	(void)a;
-	p_mutex_lock(mu); registered++;
+	p_mutex_lock(mu); __atomic_add_fetch(&registered, 1, __ATOMIC_SEQ_CST);
 	while (!go) p_cond_variable_wait(cv_ne, mu);
 	__atomic_store_n(&awake_flag, 1, __ATOMIC_SEQ_CST);
 	while (!__atomic_load_n(&release_flag, __ATOMIC_SEQ_CST)) sched_yield();
 	p_mutex_unlock(mu);
 	return NULL;
 }
-static long long st_wake_cases, st_waiters_woken, st_storm_rounds;
+static long long st_wake_cases, st_waiters_woken, st_storm_rounds, st_trylock_probes;
 /* several threads signal at the same instant, outside the mutex, for a single blocked consumer; every published token must be consumed */
 static int storm_tokens, storm_stop; static long long storm_consumed; static pthread_barrier_t storm_bar; static int storm_K;
 static void *storm_consumer(void *a) { (void)a; p_mutex_lock(mu); for (;;) { while (storm_tokens == 0 && !storm_stop) p_cond_variable_wait(cv_ne, mu); if (storm_tokens == 0) break; storm_tokens--; storm_consumed++; __atomic_add_fetch(&progress, 1, __ATOMIC_RELAXED); } p_mutex_unlock(mu); return NULL; }
@@ -138,8 +140,21 @@ static void run_wake(int W, int mode) {      /* mode 0 broadcast-all, 1 signal-o
 	mu = p_mutex_new(); cv_ne = p_cond_variable_new(); registered = 0; go = 0; tokens = 0; arrived = 0; release_flag = 0; awake_flag = 0;
 	if (mode == 2) W = 1;
 	for (i = 0; i < W; i++) pthread_create(&th[i], NULL, mode == 2 ? waiter_hold : waiter, NULL);
+	if (mode == 3) {
+		/* "wait releases the given mutex": the main thread never blocks on the mutex here; once all W waiters have registered (counter read
+		 * without the mutex) they are inside wait or about to be, so polling trylock must get the mutex within the bound */
+		int t, got = 0;
+		scen = "wait-releases-mutex-for-trylock";
+		for (t = 0; t < 200000 && __atomic_load_n(&registered, __ATOMIC_SEQ_CST) < W; t++) usleep(100);
+		for (t = 0; t < 200000 && !(got = p_mutex_trylock(mu)); t++) usleep(t < 1000 ? 10 : 100);
+		if (!got) { viol("mutex-not-released-by-wait", "%d threads are blocked in p_cond_variable_wait but p_mutex_trylock on their mutex never succeeded in 20 s", W); p_mutex_lock(mu); }
+		go = 1; p_cond_variable_broadcast(cv_ne); p_mutex_unlock(mu);
+		if (!wait_arrivals(W, 2000) && !wait_arrivals(W, 18000)) viol("broadcast-woke-too-few", "one broadcast with %d registered waiters woke only %d", W, arrived);
+		st_waiters_woken += arrived; st_trylock_probes++;
+	} else
 	wait_registered(W);                 /* registered under the mutex right before waiting: all W are inside wait (atomic release-and-wait) */
-	if (mode == 0) {
+	if (mode == 3) {
+	} else if (mode == 0) {
 		scen = "broadcast-wakes-all";
 		p_mutex_lock(mu); go = 1; if (W & 1) { p_mutex_unlock(mu); p_cond_variable_broadcast(cv_ne); } else { p_cond_variable_broadcast(cv_ne); p_mutex_unlock(mu); }     /* odd W: the (single) broadcast is issued after unlocking, which is legal */
 		if (!wait_arrivals(W, 2000) && !wait_arrivals(W, 18000)) viol("broadcast-woke-too-few", "one broadcast with %d registered waiters woke only %d", W, arrived);
@@ -172,14 +187,14 @@ int main(int argc, char **argv) {
 	vh_max_viol = 3;      /* a failing wake scenario costs 20 s of waiting: three witnesses are enough, keep the run short */
 	p_libsys_init();
 	pthread_create(&wd, NULL, wd_fn, NULL);
-	for (i = 0; i < wakes && vh_nviol < vh_max_viol; i++) { int W = 1 + (int)vh_below(&r, (uint64_t)maxw); run_wake(W, (int)(i % 3)); }
+	for (i = 0; i < wakes && vh_nviol < vh_max_viol; i++) { int W = 1 + (int)vh_below(&r, (uint64_t)maxw); run_wake(W, (int)(i % 4)); }
 	for (i = 0; i < 4 && vh_nviol < vh_max_viol; i++) run_storm(2 + (int)vh_below(&r, 5), wakes * 2);
 	for (i = 0; i < runs && vh_nviol < vh_max_viol; i++) {
 		int P = 1 + (int)vh_below(&r, (uint64_t)maxt / 2 + 1), C = 1 + (int)vh_below(&r, (uint64_t)maxt / 2 + 1), capc = 1 + (int)vh_below(&r, 4);
-		run_buffer(P, C, items / P + 1, capc, (int)(i & 1), (int)((i >> 1) & 1));
+		run_buffer(P, C, items / P + 1, capc, (int)(i & 1), (int)((i >> 1) & 1), (int)(i % 5 == 4));
 	}
 	p_libsys_shutdown();
-	printf("{\"ev\":\"stats\",\"buffer_runs\":%lld,\"items\":%lld,\"waits\":%lld,\"returns_with_false_predicate\":%lld,\"wake_cases\":%lld,\"concurrent_signal_rounds\":%lld,\"waiters_woken\":%lld,\"viol\":%d,\"wall\":%.2f}\n",
-	       st_runs, st_items, st_waits, st_spurious_returns, st_wake_cases, st_storm_rounds, st_waiters_woken, vh_nviol, vh_now() - t0);
+	printf("{\"ev\":\"stats\",\"buffer_runs\":%lld,\"items\":%lld,\"waits\":%lld,\"returns_with_false_predicate\":%lld,\"wake_cases\":%lld,\"concurrent_signal_rounds\":%lld,\"waiters_woken\":%lld,\"trylock_probes_during_wait\":%lld,\"buffer_runs_with_trylock_producers\":%lld,\"trylock_acquisitions\":%lld,\"viol\":%d,\"wall\":%.2f}\n",
+	       st_runs, st_items, st_waits, st_spurious_returns, st_wake_cases, st_storm_rounds, st_waiters_woken, st_trylock_probes, st_try_runs, st_try_acquisitions, vh_nviol, vh_now() - t0);
 	return 0;
 }
